@@ -635,6 +635,9 @@ func c02ClientBadSizes(c *ev.Ctx) {
 	}
 }
 
+// Pattern9 is fakesrv.Pattern (the bytes the fake server serves for a fid and offset).
+func Pattern9(fid, off uint64, n int) []byte { return fakesrv.Pattern(fid, off, n) }
+
 func sizeClass(sz, limit uint32) string {
 	switch {
 	case sz < 7:
@@ -671,6 +674,23 @@ func c02Client(c *ev.Ctx) {
 			t, vals := fakesrv.Derived(rq.Msg, 1<<16)
 			body, _ := wire.EncodeBody(t, vals)
 			tag := rq.Msg.Tag
+			if rq.Msg.Type == wire.Tread && rr.Intn(3) == 0 {
+				// a well-formed Rread carrying MORE bytes than the Tread asked
+				// for: whatever the caller makes of it, not a count beyond its
+				// buffer, and no panic
+				class = "more-data-than-asked"
+				cnt := int(rq.Msg.F[2].(uint64))
+				reply = wire.Encode(wire.Rread, tag, Pattern9(rq.Msg.F[0].(uint64), rq.Msg.F[1].(uint64), cnt+1+rr.Intn(300)))
+				s.SendRaw(reply)
+				return
+			}
+			if rq.Msg.Type == wire.Twrite {
+				// an Rwrite claiming more bytes than were sent
+				class = "more-written-than-sent"
+				reply = wire.Encode(wire.Rwrite, tag, uint64(len(rq.Msg.F[2].([]byte))+1+rr.Intn(1000)))
+				s.SendRaw(reply)
+				return
+			}
 			switch rr.Intn(9) {
 			case 0:
 				class = "short-body"
@@ -730,7 +750,7 @@ func c02Client(c *ev.Ctx) {
 		var mask p9.AttrMask
 		var attr p9.Attr
 		var gerr error
-		kind := "GDWRLS"[i%6]
+		kind := "GDWRLSTR"[i%8]
 		var check func(m wire.Msg) bool // does the decoded frame carry exactly what the call returned?
 		done := make(chan struct{})
 		c.Begin(fmt.Sprintf("C02 client case %d kind %c", i, kind))
@@ -782,9 +802,26 @@ func c02Client(c *ev.Ctx) {
 				if gerr == io.EOF {
 					gerr = nil
 				}
+				if n > len(buf) {
+					gerr = nil
+					check = func(wire.Msg) bool { return false }
+					class += ":count-beyond-the-buffer"
+					return
+				}
 				check = func(m wire.Msg) bool {
 					return m.Type == wire.Rread && bytes.Equal(m.F[0].([]byte), buf[:n])
 				}
+			case 'T':
+				var n int
+				data := []byte("0123456789abcdef")
+				n, gerr = root.WriteAt(data, 3)
+				if n > len(data) {
+					gerr = nil
+					check = func(wire.Msg) bool { return false }
+					class += ":count-beyond-the-buffer"
+					return
+				}
+				check = func(m wire.Msg) bool { return m.Type == wire.Rwrite && int(m.F[0].(uint64)) == n }
 			case 'L':
 				var t string
 				t, gerr = root.Readlink()
